@@ -1,0 +1,38 @@
+//! Verification hooks (feature `verif_hooks`, off by default).
+//!
+//! A thread-local logical step counter. The verification harness calls `reset(budget)` before
+//! running an operation; the library calls `tick()` at the places where it advances through its
+//! input. When the budget is exceeded, `tick()` panics with a fixed message, which turns
+//! "loops without consuming input" into a deterministic, replayable event.
+
+use std::cell::Cell;
+
+thread_local! {
+    static STEPS: Cell<u64> = const { Cell::new(0) };
+    static BUDGET: Cell<u64> = const { Cell::new(u64::MAX) };
+}
+
+/// reset the step counter and set a new budget
+pub fn reset(budget: u64) {
+    STEPS.with(|s| s.set(0));
+    BUDGET.with(|b| b.set(budget));
+}
+
+/// number of steps counted since the last reset
+pub fn steps() -> u64 {
+    STEPS.with(|s| s.get())
+}
+
+#[inline]
+pub(crate) fn tick() {
+    let steps = STEPS.with(|s| {
+        let v = s.get() + 1;
+        s.set(v);
+        v
+    });
+    if steps > BUDGET.with(|b| b.get()) {
+        // disarm, so that unwinding code cannot trigger a second panic
+        BUDGET.with(|b| b.set(u64::MAX));
+        panic!("a2lfile_verif: step budget exceeded");
+    }
+}
